@@ -47,6 +47,7 @@ let handle (cmd : string) (args : string list) : string =
   | "leval", [e] -> opt_pv (literal_eval (expr_of (parse e)))
   | "lit_expr", [v] -> "OK " ^ str_expr (lit_expr (pv_of (parse v)))
   | "finite", [v] -> if finite (pv_of (parse v)) then "1" else "0"
+  | "embeddable", [v] -> if embeddable (pv_of (parse v)) then "1" else "0"
   | "check", [e] -> if check_ast (expr_of (parse e)) then "OK" else "ValueError"
   | "terminal", [m; q; env] -> opt_expr (as_terminal (unhx m) (expr_of (parse q)) (env_of (parse env)))
   | "metadata", [q; v] -> opt_expr (metadata_call (expr_of (parse q)) (pv_of (parse v)))
